@@ -325,7 +325,7 @@ class Engine:
             self.pools.setdefault(pool, []).append(c)
 
     # ---- decisions --------------------------------------------------------------------------------
-    def _check(self, conds, timeout_ms):
+    def _check(self, conds, timeout_ms, kind='assert'):
         s = z3.Solver()
         s.set('timeout', int(timeout_ms))
         s.add(*conds)
@@ -335,12 +335,13 @@ class Engine:
         self.stats['solver_s'] += dt
         if dt * 1000 > 0.25 * timeout_ms:
             # robustness indicator (evidence): verdicts that needed more than a quarter of their time budget
-            self.stats['slow_queries'] = self.stats.get('slow_queries', 0) + 1
+            k = 'slow_queries' if kind == 'assert' else 'slow_feas_queries'
+            self.stats[k] = self.stats.get(k, 0) + 1
         return r, s
 
     def feasible(self, cond):
         self.stats['feas_queries'] += 1
-        r, _ = self._check(self.pc + [cond], self.feas_timeout_ms)
+        r, _ = self._check(self.pc + [cond], self.feas_timeout_ms, kind='feas')
         return r != z3.unsat  # unknown counts as feasible
 
     def decide(self, cond, zero_test=False):
